@@ -15,7 +15,7 @@ func init() {
 			ruleU3(c)
 			ruleL1(c)
 		},
-		explanation: "Decides the structure around the runtime's update callback: the callback stored in the adaptation is called from exactly one place and there with the adaptation lock held — the same lock under which every other request touches the plugin list and calls plugins, hence mutual exclusion; the plugin's update list reaches the callback unchanged (UpdateContainers request -> updateContainers -> callback) and the callback's failed list and error are returned unchanged in the response; on the stub side the argument is sent as the request's Update and the response's Failed list and the RPC error are returned; a stub that has not been started tests its runtime client first and returns ErrNoService without making the call. The stub's call carries no deadline of its own; every relay call of a request method is under the adaptation lock whatever list it iterates.",
+		explanation: "Decides the structure around the runtime's update callback: the callback stored in the adaptation is called from exactly one place and there with the adaptation lock held — the same lock under which every other request touches the plugin list and calls plugins, hence mutual exclusion; the plugin's update list reaches the callback unchanged (UpdateContainers request -> updateContainers -> callback) and the callback's failed list and error are returned unchanged in the response; on the stub side the argument is sent as the request's Update and the response's Failed list and the RPC error are returned; a stub that has not been started tests its runtime client first and returns ErrNoService without making the call. The stub's call carries no deadline of its own; every relay call of a request method is under the adaptation lock whatever list it iterates. Every return after the callback yields the callback's error.",
 		notDecided: []string{
 			"exactly-once delivery over the transport",
 			"what the runtime's callback does",
@@ -87,10 +87,17 @@ func ruleU2(c *Ctx) {
 		}
 	}
 	for _, r := range returnsOf(pu) {
+		if !instrCanReach(inner, r) {
+			continue
+		}
+		okE = true
 		for _, v := range returnValues(r, 1) {
-			if ex, ok := v.(*ssa.Extract); ok && ex.Tuple == ssa.Value(inner) && ex.Index == 1 {
-				okE = true
+			if ex, ok := v.(*ssa.Extract); !ok || ex.Tuple != ssa.Value(inner) || ex.Index != 1 {
+				okE = false // some path returns another error value (for instance nil when the callback failed)
 			}
+		}
+		if !okE {
+			break
 		}
 	}
 	c.ok("U2", "plugin.UpdateContainers/failed", inner.Pos(), okF, "the response's Failed list is the callback's failed list", "Failed is not result #0 of updateContainers: the plugin does not learn which updates failed")
